@@ -65,7 +65,7 @@ Proof.
   destruct (set_key new_stream k (repeat x07 16)) as [A|] eqn:EA; [|discriminate].
   destruct (set_key new_stream k (repeat x09 16)) as [B|] eqn:EB; [|discriminate].
   exists A, B, k. vm_compute in EA, EB. injection EA as <-. injection EB as <-.
-  split; [split; constructor; try reflexivity; intro H; inversion H|].
+  split; [split; constructor; try reflexivity; try apply dsim_refl; intro H; inversion H|].
   split; [reflexivity|]. split; [reflexivity|].
   split; [split; intro; reflexivity|]. vm_compute. discriminate.
 Qed.
